@@ -73,7 +73,7 @@ fn transport(row: &Row, extra_bidi: u32) -> TransportConfig {
     t
 }
 
-fn configs(row: &Row, probes: bool) -> (ServerConfig, ClientConfig) {
+pub(crate) fn configs(row: &Row, probes: bool) -> (ServerConfig, ClientConfig) {
     let c = certs();
     let mut server = ServerBuilder::new_with_single_cert(vec![c.cert.clone().into()], c.key.clone().try_into().expect("key der"))
         .expect("server config")
@@ -141,15 +141,15 @@ impl Notify {
 // caused by other wake-ups)
 // ---------------------------------------------------------------------------------------------
 
-type DriverSlot = Arc<Mutex<Option<Waker>>>;
+pub(crate) type DriverSlot = Arc<Mutex<Option<Waker>>>;
 
 thread_local! {
     /// set while the harness polls something that is known to panic on the unchanged tree
     pub static EXPECT_PANIC: Cell<bool> = const { Cell::new(false) };
 }
 
-struct PFlag {
-    woken: AtomicBool,
+pub(crate) struct PFlag {
+    pub(crate) woken: AtomicBool,
     driver: DriverSlot,
 }
 
@@ -168,7 +168,7 @@ impl Wake for PFlag {
 }
 
 #[derive(Clone, Copy, PartialEq, Eq, Debug)]
-enum Expect {
+pub(crate) enum Expect {
     /// has to resolve after the close point while all handles are still alive
     AfterClose,
     /// `Connection::closed`: resolves when the connection has drained (3 PTO after the close, a
@@ -178,26 +178,26 @@ enum Expect {
     AfterRelease,
 }
 
-struct Probe {
-    side: Side,
-    kind: &'static str,
+pub(crate) struct Probe {
+    pub(crate) side: Side,
+    pub(crate) kind: &'static str,
     fut: Option<Pin<Box<dyn Future<Output = String>>>>,
-    flag: Arc<PFlag>,
+    pub(crate) flag: Arc<PFlag>,
     waker: Waker,
-    result: Option<String>,
+    pub(crate) result: Option<String>,
     pre_close: bool,
     expect: Expect,
-    polls: u32,
+    pub(crate) polls: u32,
 }
 
 impl Probe {
-    fn new(side: Side, kind: &'static str, expect: Expect, slot: &DriverSlot, fut: Pin<Box<dyn Future<Output = String>>>) -> Self {
+    pub(crate) fn new(side: Side, kind: &'static str, expect: Expect, slot: &DriverSlot, fut: Pin<Box<dyn Future<Output = String>>>) -> Self {
         let flag = Arc::new(PFlag { woken: AtomicBool::new(false), driver: slot.clone() });
         let waker = Waker::from(flag.clone());
         Probe { side, kind, fut: Some(fut), flag, waker, result: None, pre_close: false, expect, polls: 0 }
     }
 
-    fn poll_now(&mut self) {
+    pub(crate) fn poll_now(&mut self) {
         let Some(f) = self.fut.as_mut() else { return };
         self.flag.woken.store(false, Ordering::SeqCst);
         self.polls += 1;
@@ -290,7 +290,7 @@ pub struct RunResult {
     pub side_findings: Vec<(String, String)>,
 }
 
-fn short(s: String) -> String {
+pub(crate) fn short(s: String) -> String {
     if s.len() > 160 { format!("{}…", &s[..s.char_indices().take_while(|(i, _)| *i < 157).last().map(|(i, c)| i + c.len_utf8()).unwrap_or(0)]) } else { s }
 }
 
@@ -976,8 +976,10 @@ fn start_scenario(ctx: &Rc<Ctx>) {
 // setup
 // ---------------------------------------------------------------------------------------------
 
-async fn setup(ctx: &Rc<Ctx>) -> Result<(), String> {
-    let (sc, cc) = configs(ctx.row(), ctx.spec.probes);
+/// two endpoints on loopback and one established connection: (client endpoint, server endpoint,
+/// client connection, server connection)
+pub(crate) async fn connect(row: &Row, probes: bool) -> Result<(Endpoint, Endpoint, Connection, Connection), String> {
+    let (sc, cc) = configs(row, probes);
     let server = Endpoint::server("127.0.0.1:0", sc).await.map_err(|e| format!("server endpoint: {e}"))?;
     let client = Endpoint::client("127.0.0.1:0").await.map_err(|e| format!("client endpoint: {e}"))?;
     let addr = server.local_addr().map_err(|e| format!("local_addr: {e}"))?;
@@ -990,6 +992,11 @@ async fn setup(ctx: &Rc<Ctx>) -> Result<(), String> {
     });
     let c = c.map_err(|e| format!("handshake (client): {e:?}"))?;
     let s = s?;
+    Ok((client, server, c, s))
+}
+
+async fn setup(ctx: &Rc<Ctx>) -> Result<(), String> {
+    let (client, server, c, s) = connect(ctx.row(), ctx.spec.probes).await?;
     *ctx.sides[0].conn.borrow_mut() = Some(c);
     *ctx.sides[1].conn.borrow_mut() = Some(s);
     *ctx.sides[0].ep.borrow_mut() = Some(client);
@@ -1480,11 +1487,11 @@ async fn run_async(spec: RunSpec) -> RunResult {
     finish_result(&ctx, events, None)
 }
 
-/// One execution in a fresh runtime on the calling thread.
-pub fn run_once(spec: &RunSpec) -> RunResult {
+/// Runs `f` to completion in a fresh runtime (on the given driver) on the calling thread.
+pub(crate) fn in_runtime<F: Future>(driver: Drv, f: F) -> F::Output {
     let mut pb = compio_driver::ProactorBuilder::new();
     pb.capacity(256);
-    let want = match spec.driver {
+    let want = match driver {
         Drv::Uring => compio_driver::DriverType::IoUring,
         Drv::Poll => compio_driver::DriverType::Poll,
     };
@@ -1496,6 +1503,10 @@ pub fn run_once(spec: &RunSpec) -> RunResult {
     if rt.driver_type() != want {
         vcore::machinery_error(&format!("asked for driver {want:?}, got {:?}", rt.driver_type()));
     }
-    let spec = spec.clone();
-    rt.block_on(run_async(spec))
+    rt.block_on(f)
+}
+
+/// One execution in a fresh runtime on the calling thread.
+pub fn run_once(spec: &RunSpec) -> RunResult {
+    in_runtime(spec.driver, run_async(spec.clone()))
 }
